@@ -307,3 +307,22 @@ MUTANTS += [
          old="        if (not isinstance(cache_json['funcVersions'], dict) or\n                not isinstance(cache_json['operationVersions'], dict)):\n            raise RuntimeError(\n                'Error parsing cache file {:s}'.format(filename))\n",
          new=""),
 ]
+
+MUTANTS += [
+    # ---- path spellings (the metamorphic layer of dsl.spell) and falsy versions
+    dict(name='c04_get_size_path_not_sanitized', props=['C04', 'C01'], file=FB,
+         old="                'get_size', [FileBuilder._sanitize_filename(filename)]))",
+         new="                'get_size', [os.fsdecode(filename)]))"),
+    dict(name='c04_walk_path_not_sanitized', props=['C04', 'C01'], file=FB,
+         old="                'walk', [FileBuilder._sanitize_filename(dir_), top_down]))",
+         new="                'walk', [os.fsdecode(dir_), top_down]))"),
+    dict(name='c01_build_cache_path_not_sanitized', props=['C01', 'C12'], file=FB,
+         old="            raise TypeError('\"func\" must be callable')\n        cache_filename = FileBuilder._sanitize_filename(cache_filename)\n",
+         new="            raise TypeError('\"func\" must be callable')\n        cache_filename = os.fsdecode(cache_filename)\n"),
+    dict(name='c12_clean_cache_path_not_sanitized', props=['C12'], file=FB,
+         old="            raise TypeError('Build name must be a string')\n        cache_filename = FileBuilder._sanitize_filename(cache_filename)\n",
+         new="            raise TypeError('Build name must be a string')\n        cache_filename = os.fsdecode(cache_filename)\n"),
+    dict(name='c06_falsy_versions_not_written', props=['C06', 'C01'], file=CACHE,
+         old="            'funcVersions': self._func_versions,",
+         new="            'funcVersions': {k: v for k, v in self._func_versions.items() if v},"),
+]
